@@ -164,10 +164,33 @@ func (fc *FnCtx) trCall(st *State, call *ast.CallExpr) []Val {
 		}
 	}
 	// ghost models
+	// arguments of a modelled call are remembered for argOf() when translating them a second
+	// time is harmless (no calls inside); taken before the model runs (it may change the state)
+	var modelArgs []Val
+	simpleArgs := true
+	for _, a := range call.Args {
+		if !fc.isSimpleExpr(a) {
+			simpleArgs = false
+		}
+	}
+	if simpleArgs && call.Ellipsis == token.NoPos {
+		fc.noSafety++
+		for _, a := range call.Args {
+			modelArgs = append(modelArgs, fc.tr(st, a))
+		}
+		fc.noSafety--
+	}
 	if rs, ok := fc.trModel(st, call, fn, recvExpr, full); ok {
-		st.env["ghost.called."+fn.Name()] = boolVal("true")
+		fc.setGhost(st, "called", fn, "", boolVal("true"))
 		for i, rv := range rs {
-			st.env[fmt.Sprintf("ghost.ret.%s.%d", fn.Name(), i)] = rv
+			fc.setGhost(st, "ret", fn, fmt.Sprint(i), rv)
+		}
+		for i := range call.Args {
+			if i < len(modelArgs) {
+				fc.setGhost(st, "arg", fn, fmt.Sprint(i), modelArgs[i])
+			} else {
+				fc.clearGhost(st, "arg", fn, fmt.Sprint(i))
+			}
 		}
 		return rs
 	}
@@ -186,8 +209,8 @@ func (fc *FnCtx) trCall(st *State, call *ast.CallExpr) []Val {
 						rt := sig.Results().At(0).Type()
 						v = fc.initialVal(k, sortOf(rt), rt)
 					}
-					st.env["ghost.called."+fn.Name()] = boolVal("true")
-					st.env["ghost.ret."+fn.Name()+".0"] = v
+					fc.setGhost(st, "called", fn, "", boolVal("true"))
+					fc.setGhost(st, "ret", fn, "0", v)
 					fc.notes = appendUnique(fc.notes, "ASSUMED pure getter: "+full)
 					return []Val{v}
 				}
@@ -216,7 +239,32 @@ func (fc *FnCtx) trCall(st *State, call *ast.CallExpr) []Val {
 	}
 	// regexp methods on a pattern whose literal is in the source: mechanical T2 facts
 	if recvExpr != nil && isNamed(sig.Recv().Type(), "regexp", "Regexp") {
+		var reArgs []Val
+		reSimple := call.Ellipsis == token.NoPos
+		for _, a := range call.Args {
+			if !fc.isSimpleExpr(a) {
+				reSimple = false
+			}
+		}
+		if reSimple {
+			fc.noSafety++
+			for _, a := range call.Args {
+				reArgs = append(reArgs, fc.tr(st, a))
+			}
+			fc.noSafety--
+		}
 		if rs, ok := fc.trRegexpMethod(st, call, fn, recvExpr); ok {
+			fc.setGhost(st, "called", fn, "", boolVal("true"))
+			for i, rv := range rs {
+				fc.setGhost(st, "ret", fn, fmt.Sprint(i), rv)
+			}
+			for i := range call.Args {
+				if i < len(reArgs) {
+					fc.setGhost(st, "arg", fn, fmt.Sprint(i), reArgs[i])
+				} else {
+					fc.clearGhost(st, "arg", fn, fmt.Sprint(i))
+				}
+			}
 			return rs
 		}
 	}
@@ -476,11 +524,11 @@ func (fc *FnCtx) autoInline(st *State, call *ast.CallExpr, fn *types.Func, pkgPa
 		}
 		restore()
 		for i, a := range args {
-			st.env[fmt.Sprintf("ghost.arg.%s.%d", fn.Name(), i)] = a
+			fc.setGhost(st, "arg", fn, fmt.Sprint(i), a)
 		}
-		st.env["ghost.called."+fn.Name()] = boolVal("true")
+		fc.setGhost(st, "called", fn, "", boolVal("true"))
 		for i, rv := range results {
-			st.env[fmt.Sprintf("ghost.ret.%s.%d", fn.Name(), i)] = rv
+			fc.setGhost(st, "ret", fn, fmt.Sprint(i), rv)
 		}
 		fc.notes = appendUnique(fc.notes, "helper without contract executed in place: "+pkgShort(pkgPath)+"."+name)
 		return results, true
@@ -527,11 +575,11 @@ func (fc *FnCtx) autoInline(st *State, call *ast.CallExpr, fn *types.Func, pkgPa
 		st.assume = append(st.assume, "(or "+strings.Join(hs, " ")+")")
 	}
 	for i, a := range args {
-		st.env[fmt.Sprintf("ghost.arg.%s.%d", fn.Name(), i)] = a
+		fc.setGhost(st, "arg", fn, fmt.Sprint(i), a)
 	}
-	st.env["ghost.called."+fn.Name()] = boolVal("true")
+	fc.setGhost(st, "called", fn, "", boolVal("true"))
 	for i, rv := range results {
-		st.env[fmt.Sprintf("ghost.ret.%s.%d", fn.Name(), i)] = rv
+		fc.setGhost(st, "ret", fn, fmt.Sprint(i), rv)
 	}
 	fc.notes = appendUnique(fc.notes, "helper without contract executed in place (all paths merged): "+pkgShort(pkgPath)+"."+name)
 	return results, true
@@ -640,11 +688,11 @@ func (fc *FnCtx) havocCall(st *State, call *ast.CallExpr, what string) []Val {
 	rs := fc.freshResults(st, call, "call")
 	if fn, _ := fc.calleeOf(call); fn != nil && fn.Pkg() != nil {
 		for i, a := range call.Args {
-			st.env[fmt.Sprintf("ghost.arg.%s.%d", fn.Name(), i)] = fc.tr(st, a)
+			fc.setGhost(st, "arg", fn, fmt.Sprint(i), fc.tr(st, a))
 		}
-		st.env["ghost.called."+fn.Name()] = boolVal("true")
+		fc.setGhost(st, "called", fn, "", boolVal("true"))
 		for i, rv := range rs {
-			st.env[fmt.Sprintf("ghost.ret.%s.%d", fn.Name(), i)] = rv
+			fc.setGhost(st, "ret", fn, fmt.Sprint(i), rv)
 		}
 	}
 	return rs
@@ -1042,23 +1090,30 @@ func (fc *FnCtx) trContractCall2(st *State, call *ast.CallExpr, name string) Val
 			return fc.readKey(st, v.Rec+".lines", types.NewSlice(types.Typ[types.String]))
 		}
 	case "called":
-		id, _ := call.Args[0].(*ast.Ident)
-		if id == nil {
-			fc.errorf("contract: called(name)")
+		gname := ghostCallee(call.Args[0])
+		if gname == "" {
+			fc.errorf("contract: called(name) or called(pkg.name)")
 			return boolVal("false")
 		}
-		if _, ok := st.env["ghost.called."+id.Name]; ok {
-			return boolVal("true")
+		v, ok := st.env["ghost.called."+gname]
+		if !ok {
+			return boolVal("false")
 		}
-		return boolVal("false")
+		// in a clause over one iteration (body / leave): called during THIS iteration
+		if fc.headEnv != nil {
+			if hv, had := fc.headEnv["ghost.called."+gname]; had && hv.T == v.T {
+				return boolVal("false")
+			}
+		}
+		return boolVal("true")
 	case "argOf":
-		id, _ := call.Args[0].(*ast.Ident)
+		gname := ghostCallee(call.Args[0])
 		bl, _ := call.Args[1].(*ast.BasicLit)
-		if id == nil || bl == nil {
+		if gname == "" || bl == nil {
 			fc.errorf("contract: argOf(name, i)")
 			return Val{S: SOpaque, T: "0"}
 		}
-		if v, ok := st.env["ghost.arg."+id.Name+"."+bl.Value]; ok {
+		if v, ok := st.env["ghost.arg."+gname+"."+bl.Value]; ok {
 			return v
 		}
 		return Val{S: SNil, T: "0"}
@@ -1082,13 +1137,13 @@ func (fc *FnCtx) trContractCall2(st *State, call *ast.CallExpr, name string) Val
 		st.assume = tmp.assume
 		return v
 	case "resultOf":
-		id, _ := call.Args[0].(*ast.Ident)
+		gname := ghostCallee(call.Args[0])
 		bl, _ := call.Args[1].(*ast.BasicLit)
-		if id == nil || bl == nil {
+		if gname == "" || bl == nil {
 			fc.errorf("contract: resultOf(name, i)")
 			return Val{S: SOpaque, T: "0"}
 		}
-		if v, ok := st.env["ghost.ret."+id.Name+"."+bl.Value]; ok {
+		if v, ok := st.env["ghost.ret."+gname+"."+bl.Value]; ok {
 			return v
 		}
 		// not called on this path: an arbitrary value (clauses guard with called())
@@ -1297,12 +1352,12 @@ func (fc *FnCtx) callByContract(st *State, call *ast.CallExpr, fn *types.Func, r
 		t := fc.tr(st, cl.Expr)
 		st.addAssume(t.T)
 	}
-	st.env["ghost.called."+fn.Name()] = boolVal("true")
+	fc.setGhost(st, "called", fn, "", boolVal("true"))
 	for i, rv := range results {
-		st.env[fmt.Sprintf("ghost.ret.%s.%d", fn.Name(), i)] = rv
+		fc.setGhost(st, "ret", fn, fmt.Sprint(i), rv)
 	}
 	for i, av := range argVals {
-		st.env[fmt.Sprintf("ghost.arg.%s.%d", fn.Name(), i)] = av
+		fc.setGhost(st, "arg", fn, fmt.Sprint(i), av)
 	}
 	if c.Opts["exits"] == "always" {
 		st.env["$outcome"] = Val{T: "exit", S: SOpaque}
@@ -1572,6 +1627,72 @@ func (fc *FnCtx) inlineCall(st *State, call *ast.CallExpr, fn *types.Func, recvE
 	}
 	restore()
 	return results, true
+}
+
+// ghostCallee: the callee named in called/argOf/resultOf: `name`, or `pkg.name` when two
+// callees of the function share a name (context.New / configuration.New).
+func ghostCallee(e ast.Expr) string {
+	switch x := e.(type) {
+	case *ast.Ident:
+		return x.Name
+	case *ast.SelectorExpr:
+		if id, ok := x.X.(*ast.Ident); ok {
+			return id.Name + "/" + x.Sel.Name
+		}
+	}
+	return ""
+}
+
+// isSimpleExpr: an expression without calls (conversions aside), safe to translate twice.
+func (fc *FnCtx) isSimpleExpr(e ast.Expr) bool {
+	switch x := e.(type) {
+	case *ast.Ident, *ast.BasicLit:
+		return true
+	case *ast.SelectorExpr:
+		return fc.isSimpleExpr(x.X)
+	case *ast.ParenExpr:
+		return fc.isSimpleExpr(x.X)
+	case *ast.StarExpr:
+		return fc.isSimpleExpr(x.X)
+	case *ast.UnaryExpr:
+		return fc.isSimpleExpr(x.X)
+	case *ast.BinaryExpr:
+		return fc.isSimpleExpr(x.X) && fc.isSimpleExpr(x.Y)
+	case *ast.IndexExpr:
+		return fc.isSimpleExpr(x.X) && fc.isSimpleExpr(x.Index)
+	case *ast.CallExpr:
+		if info := fc.info(); info != nil && len(x.Args) == 1 {
+			if tv, ok := info.Types[x.Fun]; ok && tv.IsType() {
+				return fc.isSimpleExpr(x.Args[0])
+			}
+		}
+	}
+	return false
+}
+
+func (fc *FnCtx) clearGhost(st *State, kind string, fn *types.Func, idx string) {
+	names := []string{fn.Name()}
+	if fn.Pkg() != nil {
+		names = append(names, fn.Pkg().Name()+"/"+fn.Name())
+	}
+	for _, n := range names {
+		delete(st.env, "ghost."+kind+"."+n+"."+idx)
+	}
+}
+
+// setGhost records a path ghost of a call under the callee's name and under pkg/name.
+func (fc *FnCtx) setGhost(st *State, kind string, fn *types.Func, idx string, v Val) {
+	names := []string{fn.Name()}
+	if fn.Pkg() != nil {
+		names = append(names, fn.Pkg().Name()+"/"+fn.Name())
+	}
+	for _, n := range names {
+		k := "ghost." + kind + "." + n
+		if idx != "" {
+			k += "." + idx
+		}
+		st.env[k] = v
+	}
 }
 
 func appendUnique(xs []string, x string) []string {
